@@ -123,7 +123,8 @@ def run_history(cpp_exe, ml_exe, requeue, lines, timeout=600):
             "err": (err1[-500:] + err2[-500:]).strip()}
 
 
-CODE_NAMES = {1: "negamax", 2: "expansionCostWhite", 3: "expansionCostBlack", 4: "pathError", 5: "depth", 6: "links"}
+CODE_NAMES = {1: "negamax", 2: "expansionCostWhite", 3: "expansionCostBlack", 4: "pathError", 5: "depth", 6: "links",
+              7: "linkCompleteness(move between two book nodes not linked)", 9: "acyclicity"}
 
 
 def problems(r, tolerate_stale):
@@ -187,6 +188,46 @@ def translate(ctx):
     return rc == 0, (out + err)[-2000:]
 
 
+def negate_laws(cpp_exe, ml_exe):
+    """The algebraic specification of negateScore checked on the implementation's own table (all
+    16-bit scores), and the regenerated Gallina function compared with the implementation.
+    Returns (list of law violations with the concrete score, number of translator mismatches)."""
+    rc, out, _ = sh([cpp_exe, "negate"], timeout=120)
+    rc2, out2, _ = sh([ml_exe, "negate"], timeout=300)
+    tab = {}
+    for l in out.split("\n"):
+        t = l.split()
+        if len(t) == 2:
+            tab[int(t[0])] = int(t[1])
+    tab2 = {}
+    for l in out2.split("\n"):
+        t = l.split()
+        if len(t) == 2:
+            tab2[int(t[0])] = int(t[1])
+    bad = []
+    if len(tab) != 65536:
+        return [("table incomplete", len(tab))], -1
+    for s in (IGNORE, INVALID):
+        if tab[s] != s:
+            bad.append(("special score must not be negated", s, tab[s]))
+    for s in range(-16000, 16001):
+        if tab[s] != -s or tab[tab[s]] != s:
+            bad.append(("ordinary score: negation is plain and an involution", s, tab[s]))
+            break
+    for k in range(0, 15999):
+        if tab[32000 - k] != -(32000 - (k + 1)) or tab[-(32000 - k)] != 32000 - (k + 1):
+            bad.append(("mate score: distance grows by one ply", 32000 - k, tab[32000 - k], tab[-(32000 - k)]))
+            break
+    prev = None
+    for s in range(-32000, 32001):
+        if prev is not None and tab[s] > prev:
+            bad.append(("negation must reverse the order", s, tab[s], prev))
+            break
+        prev = tab[s]
+    mism = sum(1 for s in tab if tab2.get(s) != tab[s])
+    return bad, mism
+
+
 def detect_variant(cpp_exe, ml_exe):
     """Which updateScores does the compiled tree have?  Runs the witness history of
     C19_fixpoint_refuted on the implementation and looks at the equations only."""
@@ -219,6 +260,16 @@ def run(ctx):
     # (3) build
     cpp_exe = cbuild.build_harness("bookgraph_harness")
     ml_exe = coqbuild.extract("ExtractBookGraph.v", "bookgraph_driver.ml", "bookgraph_driver")
+    # negateScore: laws on the implementation's table + translator self-validation
+    nbad, nmism = negate_laws(cpp_exe, ml_exe)
+    ctx.count("negateScore_values_checked", 65536)
+    ctx.evaluated(65536)
+    if nbad:
+        ctx.violation("BookNode::negateScore violates its algebraic specification: %s" % (nbad[0][0],),
+                      {"law_violations": nbad, "harness_mode": "negate"}, key="negateScore:%s" % (nbad[0][1],))
+    elif nmism:
+        ctx.violation("regenerated negateScore differs from the implementation on %d scores (translator broken)" % nmism,
+                      {"harness_mode": "negate", "mismatches": nmism}, no_failing_input=True)
     # variant of updateScores in this tree (known finding re-confirmed on the implementation, or fixed)
     stale, wr = detect_variant(cpp_exe, ml_exe)
     requeue = not stale
@@ -246,10 +297,10 @@ def run(ctx):
             ls = [l for l in blk.strip().split("\n") if l and not l.startswith("#")]
             if ls:
                 hist.append(ls)
-    n_small = ctx.scale(260, 6000)
-    n_big = ctx.scale(12, 300)
+    n_small = ctx.scale(170, 6000)
+    n_big = ctx.scale(6, 300)
+    hist += [gen_history(rng, ctx.scale(450, 3000), big=True) for _ in range(n_big)]     # long ones first
     hist += [gen_history(rng, rng.choice([20, 60, 150, 300])) for _ in range(n_small)]
-    hist += [gen_history(rng, ctx.scale(450, 3000), big=True) for _ in range(n_big)]
     with ThreadPoolExecutor(max_workers=NCPU) as ex:
         results = list(ex.map(lambda ls: run_history(cpp_exe, ml_exe, requeue, ls, timeout=ctx.scale(600, 3600)), hist))
     first_model = None
@@ -325,6 +376,8 @@ def run(ctx):
             ctx.violation("correspondence model/implementation broken: %s" % (m2 or mb), replay, no_failing_input=True)
         return
     replay["broken"] = "theorem(s) in %s no longer check or translator refused" % PROP_FILE
+    if nbad:
+        return      # the concrete failing input of the broken negateScore lemmas was reported above
     ctx.violation(replay["broken"], replay, no_failing_input=True)
 
 
@@ -333,6 +386,12 @@ def replay(ctx, body):
     if r.get("harness_mode") == "cyclic":
         cpp_exe = cbuild.build_harness("bookgraph_harness")
         print(sh([cpp_exe, "cyclic"], timeout=300)[1])
+        return
+    if r.get("harness_mode") == "negate":
+        cpp_exe = cbuild.build_harness("bookgraph_harness")
+        out = sh([cpp_exe, "negate"], timeout=300)[1].split("\n")
+        want = set(str(x[1]) for x in r.get("law_violations", []))
+        print("\n".join(l for l in out if l.split() and l.split()[0] in want))
         return
     script = r.get("script") or (r.get("failing_input") or r.get("disagreement") or {}).get("script")
     translate(ctx)
